@@ -32,6 +32,7 @@ def families(tier: str) -> list[dict]:
         dict(model='conv2', decay='decay_lin', accum=1, in_hook=False),
         dict(model='nd', decay='expdecay', accum=3, in_hook=True),
         dict(model='mlp2nb', decay=1.0, accum=2, in_hook=False),
+        dict(model='ndt', decay=0.8, accum=2, in_hook=True),
         dict(model='mlp3', decay=0.5, accum=1, in_hook=True,
              grad_scaler=8.0),
         # a large flattened batch (batch x tokens = 4500+ rows)
